@@ -378,11 +378,24 @@ func c10Explore(sb *proj.Sandbox, p hprog, tier string) c10Result {
 	vlog := sb.Log
 	seenCrash := map[string]bool{}
 	traceDone := map[string]bool{}
-	for si, st := range states {
-		for _, op := range cleanOps(st.D) {
-			if op.Kind != "run" {
+	// the runs that get killed: every clean run, and the forced run of every single task
+	crashOps := func(d hdisk) []hop {
+		var ops []hop
+		for _, o := range cleanOps(d) {
+			if o.Kind != "run" {
 				continue
 			}
+			ops = append(ops, o)
+			if len(o.Req) == 1 {
+				f := o
+				f.Force = true
+				ops = append(ops, f)
+			}
+		}
+		return ops
+	}
+	for si, st := range states {
+		for _, op := range crashOps(st.D) {
 			// the trace depends on the disk only
 			tk := st.D.key() + "\x03" + string(pool.MustJSON(op))
 			firstForDisk := !traceDone[tk]
@@ -755,7 +768,7 @@ func c10Check(tier string) int {
 	run.Set("continuations_checked", conts)
 	run.Set("outcomes", outcomes)
 	run.Set("per_program", per)
-	run.Set("rule", "for every state of the force-free, failure-free closure of each program and every run from it (every topological-sort order), the run is executed under strace -f; crash points = every prefix of its log of mutating syscalls on .spok/** interleaved with the task markers, plus every torn version of every write to a cache file (quick: JSON token boundaries, 0, 1, middle, len-1; thorough: every byte); each distinct (disk, model) crash state is continued with {no edit, every single edit} x every unforced run (all orders) executed by the real code; distinct_nontrivial = distinct crash states")
+	run.Set("rule", "for every state of the force-free, failure-free closure of each program and every run from it (every topological-sort order; also the forced run of each single task), the run is executed under strace -f; crash points = every prefix of its log of mutating syscalls on .spok/** interleaved with the task markers, plus every torn version of every write to a cache file (quick: JSON token boundaries, 0, 1, middle, len-1; thorough: every byte); each distinct (disk, model) crash state is continued with {no edit, every single edit} x every unforced run (all orders) executed by the real code; distinct_nontrivial = distinct crash states")
 	run.Assumes("SIGKILL loses no completed syscall and tears at most the write in progress, so prefix-of-log (+ byte prefix of the last write) is the exact set of post-kill disk states", "strace reports every mutating syscall (openat/write/rename/unlink/mkdir...); ftruncate/pwrite on the cache would be a harness error, not a silent gap",
 		"the traced process is the in-process seam (parser.New/file.New/SpokFile.Run) with a controlled iteration order; cli/app adds no cache writes", "one kill per history")
 	return run.Finish()
